@@ -26,8 +26,11 @@ type Lab struct {
 // Rows printed by TLC carry no arguments (they are built from the shape name by
 // the argument table); rows of the random generator carry an argument template.
 type Row struct {
-	ID        string `json:"id"`
-	Tool      string `json:"tool"`
+	ID   string `json:"id"`
+	Tool string `json:"tool"`
+	// spelling of the tool name on the wire: "exact" or a near miss of Tool (see WireName); Tool stays the tool whose
+	// arguments and environment the call has
+	Spell     string `json:"spell"`
 	Role      string `json:"role"`
 	Mut       bool   `json:"mut"`
 	Rc        bool   `json:"rc"`
@@ -83,11 +86,12 @@ type Victim struct {
 
 // Event is one executed call.
 type Event struct {
-	Ev    string `json:"ev"`    // "Call"
-	Layer string `json:"layer"` // "L1" in-process mcp.Server | "L2" real binary `hookaido mcp serve`
-	ID    string `json:"id"`
-	Row   Row    `json:"row"`
-	Real  Real   `json:"real"`
+	Ev       string `json:"ev"`    // "Call"
+	Layer    string `json:"layer"` // "L1" in-process mcp.Server | "L2" real binary `hookaido mcp serve`
+	ID       string `json:"id"`
+	Row      Row    `json:"row"`
+	WireName string `json:"wire_name"` // the name actually sent in tools/call
+	Real     Real   `json:"real"`
 
 	Listed      []string `json:"listed"`       // tools/list before the call
 	ListedAfter []string `json:"listed_after"` // tools/list after the call
